@@ -159,7 +159,12 @@ func c19build(seed uint64, round int) *c19world {
 	for k := 0; k < 3; k++ {
 		pvals = append(pvals, bridge.ToUID(m.PickEnt(r)))
 	}
-	w.breq = batch.Request{Principal: batch.Variable("p"), Action: w.reqs[0].Action, Resource: w.reqs[0].Resource, Context: w.reqs[0].Context, Variables: batch.Variables{"p": pvals}}
+	// a second, single-valued variable inside the context (a batch authorizer may bind those up front)
+	bctx := types.NewRecord(types.RecordMap{"inner": batch.Variable("one")})
+	for k, v := range w.reqs[0].Context.All() {
+		bctx = recordWith(bctx, k, v)
+	}
+	w.breq = batch.Request{Principal: batch.Variable("p"), Action: w.reqs[0].Action, Resource: w.reqs[0].Resource, Context: bctx, Variables: batch.Variables{"p": pvals, "one": []types.Value{types.Long(1)}}}
 	for k := 0; k < 4; k++ {
 		w.vals = append(w.vals, bridge.ToValue(sanitizeVal(gen.RandValOf(r, []model.Kind{model.KSet, model.KRecord}[k%2], 2))))
 	}
@@ -574,4 +579,10 @@ func C19(c *mon.Ctx) {
 	if totalRounds == 0 {
 		c.Floor = 1 << 30
 	}
+}
+
+func recordWith(r types.Record, k types.String, v types.Value) types.Record {
+	m := r.Map()
+	m[k] = v
+	return types.NewRecord(m)
 }
